@@ -360,6 +360,23 @@ def _get_spline_mat_inv(x: torch.Tensor, bc_type: str):
         spline_mat[..., -1, -1] = 1.
         matr[..., 0, :] = 0.
         matr[..., -1, :] = 0.
+    elif bc_type == "not-a-knot" and nr == 2:
+        pass  # the not-a-knot condition needs an interior point: straight line (same as natural)
+    elif bc_type == "not-a-knot" and nr == 3:
+        # the not-a-knot conditions of both ends coincide, so take the parabola through
+        # the 3 points: the mean of the gradients at the ends of a segment equals its slope
+        spline_mat[..., 0, :] = 0.
+        spline_mat[..., 0, 0] = 1.
+        spline_mat[..., 0, 1] = 1.
+        spline_mat[..., -1, :] = 0.
+        spline_mat[..., -1, -2] = 1.
+        spline_mat[..., -1, -1] = 1.
+        matr[..., 0, :] = 0.
+        matr[..., 0, 0] = -2 * dxinv0[..., 0]
+        matr[..., 0, 1] = 2 * dxinv0[..., 0]
+        matr[..., -1, :] = 0.
+        matr[..., -1, -2] = -2 * dxinv0[..., -1]
+        matr[..., -1, -1] = 2 * dxinv0[..., -1]
     elif bc_type == "not-a-knot":
         dxinv00_sq = dxinv0[..., 0]**2
         dxinv01_sq = dxinv0[..., 1]**2
